@@ -157,6 +157,7 @@ class Check:
             with Pool(tag="vpi") as pool:
                 second = pool.map(func_path, singles, soft=soft)
             culprits = []
+            unresolved = 0
             for s, (st, r) in zip(singles, second):
                 if st == "ok":
                     self.merge(r)
@@ -169,10 +170,17 @@ class Check:
                     elif st2 == "ok":
                         self.merge(r2)
                         self.counters["death_not_reproduced_alone"] = self.counters.get("death_not_reproduced_alone", 0) + 1
+                    else:
+                        unresolved += 1
+                        self.harness_errors.append(f"isolated case: {st} then {st2}: {str(r2)[-800:]}")
                 else:
+                    unresolved += 1
                     self.harness_errors.append(f"isolated case: {st}: {str(r)[-800:]}")
-            if culprits:
+            if not unresolved:
+                # every case of the dead task has now been judged on its own, in a fresh process (or named as the culprit)
                 out[i] = ("isolated", None)
+                if not culprits:
+                    self.counters["worker_deaths_depending_on_process_history"] = self.counters.get("worker_deaths_depending_on_process_history", 0) + 1
         return out
 
     def violation(self, sig: dict, what: str, case):
